@@ -351,7 +351,7 @@ fn draw_io_faults(r: &mut Rng, profile: &[[u32; 10]], n_patches: usize) -> Vec<I
         let kind = match call {
             Call::Open => *r.pick(&[Hostile::Enoent, Hostile::Eacces, Hostile::Erofs, Hostile::Emfile, Hostile::Eio, Hostile::Enospc]),
             Call::Read => *r.pick(&[Hostile::Eio, Hostile::EarlyEof]),
-            Call::Write => *r.pick(&[Hostile::Enospc, Hostile::Eio]),
+            Call::Write => *r.pick(&[Hostile::Enospc, Hostile::Eio, Hostile::WriteZero]),
             Call::SetLen => *r.pick(&[Hostile::Eio, Hostile::Enospc]),
             Call::CreateDirAll => *r.pick(&[Hostile::Eacces, Hostile::Erofs, Hostile::Enospc, Hostile::Eexist]),
             Call::RemoveFile => *r.pick(&[Hostile::Eacces, Hostile::Erofs, Hostile::Eio]),
@@ -600,6 +600,7 @@ pub fn directed() -> Vec<Doc> {
         via: Via::Direct,
         pre: vec![],
         pre_dirs: vec!["sqpack".into(), "sqpack/ffxiv".into()],
+        failed_prelude: None,
         patches: vec![vec![
             Chunk::Fhdr3 { kind: "DIFF".into(), counters: vec![] },
             Chunk::Aply { option: 1, value: 0 },
@@ -658,6 +659,9 @@ pub fn directed() -> Vec<Doc> {
     // a sticky ENOSPC on the first target write, an unwritable target, an unremovable file
     for (call, nth, kind, sticky) in [
         (Call::Write, 0u32, Hostile::Enospc, true),
+        (Call::Write, 0, Hostile::WriteZero, true),
+        (Call::Write, 2, Hostile::WriteZero, true),
+        (Call::Write, 1, Hostile::WriteZero, false),
         (Call::Open, 1, Hostile::Eacces, false),
         (Call::Open, 5, Hostile::Eacces, false),
         (Call::RemoveFile, 0, Hostile::Eacces, false),
